@@ -6,9 +6,10 @@
        every row has k bins                                   (a DataFrame has a cell in every column)
      & [valid k d]: the Boolean transcription of what the code validates when interpolation.validate is on
        (non-empty, at least one parameter, check_data_complete per key group: every combination of left edges present,
-        no duplicate / overlapping / non-contiguous bins)
-     & [ends_agree]: rows with the same left edge have the same right edge - NOT validated by the code (it only matters
-       for the last bin; inner bins are forced by contiguity); data violating it is not "well-formed binned data".
+        every sub-table reaches the parameter's overall largest right edge, no duplicate / overlapping /
+        non-contiguous bins).
+   Since fix 1620b43e (finding F-AC) nothing beyond the code's own validation is assumed: "rows with the same left edge
+   have the same right edge", formerly a separate conjunct of [wf], is the consequence C15_ends_agree.
    Requests are arbitrary label lists: a label may occur several times (each occurrence gets the simulant's row).
    Open finding F-N (known_findings.json): the `year` value is year + yday/365.25, which leaves the current calendar
    year on day-of-year 366: C15_year_current carries the exact guard [1 <= yday <= 365]; the excluded class is
@@ -108,6 +109,14 @@ Theorem C15_categorical_row : forall d s vs, cat_one d s = Ok vs ->
   exists r, vs = Some (rvals r) /\ In r d /\ rkeys r = skeys s /\ forall r', In r' d -> rkeys r' = skeys s -> r' = r.
 Proof. exact cat_one_spec. Qed.
 
+(* consequence of the validation (an assumption before fix 1620b43e): within a key group, rows that start at the same
+   left edge of a parameter end at the same right edge - for every proper bin (start < end; a last bin whose right edge
+   is not above its left edge is tolerated by the validation and never selected inside the covered range) *)
+Theorem C15_ends_agree : forall k d r r' p,
+  wf k d = true -> In r d -> In r' d -> rkeys r = rkeys r' -> (p < k)%nat ->
+  start p r = start p r' -> start p r < stop p r -> stop p r = stop p r'.
+Proof. exact valid_ends_agree. Qed.
+
 (* the `year` parameter: the table overwrites exactly the year slot of every requested simulant with one value ... *)
 Theorem C15_year_slot : forall p yv s, (p < length (sparams s))%nat ->
   param p (with_year (Some p) yv s) = yv /\ skeys (with_year (Some p) yv s) = skeys s /\
@@ -157,13 +166,22 @@ Example ex_duplicates : table_call false ex_d 2 None 0 ex_pop [1; 0; 1; 1] =
 Proof. vm_compute. reflexivity. Qed.
 Example ex_unknown_key : table_call true ex_d 2 None 0 ex_pop [0; 4] = Rejected EPopulation.
 Proof. vm_compute. reflexivity. Qed.
-(* the validation gap: accepted by the code's validation, yet the last right edge differs between sub-tables *)
+(* finding F-AC: the last right edge differs between sub-tables ([5,10) where p1 = 0, [5,12) where p1 = 1).  The
+   validation REJECTS such data since fix 1620b43e; before it the data was accepted and, with extrapolation off, x = 11
+   was not rejected and received the row of the bin [5,10) that does not contain it (what the look-up itself still
+   does on such data when the validation is switched off). *)
 Example ex_ends_disagree :
   let d := [mkRow [] [(0, 5); (0, 1)] [1]; mkRow [] [(5, 10); (0, 1)] [2];
             mkRow [] [(0, 5); (1, 2)] [3]; mkRow [] [(5, 12); (1, 2)] [4]] in
-  valid 2 d = true /\ wf 2 d = false /\
+  valid 2 d = false /\ wf 2 d = false /\
   lookup_row false d 2 (mkSim [] [11; 0]) = Ok (Some (mkRow [] [(5, 10); (0, 1)] [2])).
 Proof. vm_compute. repeat split; reflexivity. Qed.
+(* the same grid with equal last right edges is accepted, and 11 is then inside [5,12) *)
+Example ex_ends_agree :
+  let d := [mkRow [] [(0, 5); (0, 1)] [1]; mkRow [] [(5, 12); (0, 1)] [2];
+            mkRow [] [(0, 5); (1, 2)] [3]; mkRow [] [(5, 12); (1, 2)] [4]] in
+  wf 2 d = true /\ lookup_row false d 2 (mkSim [] [11; 0]) = Ok (Some (mkRow [] [(5, 12); (0, 1)] [2])).
+Proof. vm_compute. split; reflexivity. Qed.
 
 Print Assumptions C15_bin_membership.
 Print Assumptions C15_extrapolate.
@@ -175,6 +193,7 @@ Print Assumptions C15_rejected_iff.
 Print Assumptions C15_scalar.
 Print Assumptions C15_categorical.
 Print Assumptions C15_categorical_row.
+Print Assumptions C15_ends_agree.
 Print Assumptions C15_year_slot.
 Print Assumptions C15_year_current.
 Print Assumptions C15_year_leap_dec31_refuted.
